@@ -41,6 +41,7 @@ type Engine struct {
 	symMapOrder int // per-path budget of symbolic map range orders
 	noPanic     bool
 	knownOpen   map[string]bool
+	onlyPrefix  string
 	shardK      int
 	shardN      int
 	shardDepth  int
